@@ -487,19 +487,29 @@ pub fn run(tier: Tier) -> i32 {
         if lb.len() > 1 {
             lb[1].packet.rdh.rdh1_reserved = 1;
         }
-        let bytes = grammar::round_robin(&[la, lb]).bytes();
-        let cuts: Vec<usize> = (0..=bytes.len()).collect();
+        // third link: with `-f 0` two packets in a row are skipped (the skip loop is entered a second time before a
+        // selected packet follows); its RDHs carry a fault too, so that findings exist on every link
+        let c3 = LinkCfg::ml(2, 4, false);
+        let sc = grammar::basic_hbf_shapes(&c3);
+        let mut lc = grammar::render_link(&c3, &[sc[1].1.clone(), sc[4].1.clone()]);
+        lc[0].packet.rdh.rdh1_reserved = 1;
+        let bytes2 = grammar::round_robin(&[la.clone(), lb.clone()]).bytes();
+        let bytes3 = grammar::round_robin(&[la, lb, lc]).bytes();
         let mut filtered_inside_skipped = 0u64;
+        let mut runs_of_two_skipped = 0u64;
+        for (bname, bytes) in [("two interleaved links with RDH faults", bytes2), ("three interleaved links with RDH faults", bytes3)] {
+        let three = bname.starts_with("three");
+        let cuts: Vec<usize> = (0..=bytes.len()).collect();
         let (walked_all, _) = stream::walk(&bytes);
         let fee_b = format!("{}", b.fee_id);
-        let filters: Vec<Vec<String>> = vec![
-            vec!["-f".into(), "0".into()],
-            vec!["-f".into(), "1".into()],
-            vec!["-F".into(), fee_b.clone()],
-        ];
+        let filters: Vec<Vec<String>> = if three {
+            vec![vec!["-f".into(), "0".into()], vec!["-f".into(), "2".into()]]
+        } else {
+            vec![vec!["-f".into(), "0".into()], vec!["-f".into(), "1".into()], vec!["-F".into(), fee_b.clone()]]
+        };
         for filter in &filters {
             for mode in [vec!["view", "rdh", "-d"], vec!["check", "sanity"], vec!["check", "all", "its"]] {
-                if !tier.is_thorough() && mode[0] == "check" && mode[1] == "all" && filter[0] == "-F" {
+                if !tier.is_thorough() && mode[0] == "check" && mode[1] == "all" && (filter[0] == "-F" || three) {
                     continue;
                 }
                 let mut args: Vec<&str> = mode.clone();
@@ -513,12 +523,18 @@ pub fn run(tier: Tier) -> i32 {
                         if stdin && mode[0] == "view" {
                             if walked_all.iter().any(|w| (w.offset as usize) < *c && *c < w.payload.1) {
                                 filtered_inside_skipped += 1;
+                                if three && filter[1] == "0" {
+                                    // inside the second of two packets skipped in a row (link 2 follows link 1)
+                                    if walked_all.iter().any(|w| (w.offset as usize) < *c && *c < w.payload.1 && w.rdh.link_id == 2) {
+                                        runs_of_two_skipped += 1;
+                                    }
+                                }
                             }
                         }
                         if let Some((sig, d)) = r {
                             rep.violation(Violation {
                                 signature: format!("{sig}:filtered"),
-                                description: format!("{d} [two interleaved links with RDH faults, cut at byte {c} of {}, `{}` {}]", bytes.len(), args.join(" "), if stdin { "stdin" } else { "file" }),
+                                description: format!("{d} [{bname}, cut at byte {c} of {}, `{}` {}]", bytes.len(), args.join(" "), if stdin { "stdin" } else { "file" }),
                                 replay: json!({"kind": "cli-filtered", "args": args, "stdin": stdin, "cut": c, "full_hex": hex(&bytes)}),
                             });
                         }
@@ -526,6 +542,8 @@ pub fn run(tier: Tier) -> i32 {
                 }
             }
         }
+        }
+        rep.cov("filtered_cut_cases_inside_the_second_of_two_skipped_packets", json!(runs_of_two_skipped));
         rep.cov("filtered_cut_cases_inside_a_packet", json!(filtered_inside_skipped));
     }
     rep.cov("evaluations", json!(evaluations));
